@@ -397,6 +397,11 @@ pub fn drive_repeated(w: &mut NdWriter) -> usize {
     (js, "[$$$A, ]", vec!["[a, b]", "[a, b, ]", "[a, , ]", "[, ]", "[]"]),
     (py, "foo($$$A,)", vec!["foo(a, b)", "foo(a, b,)", "foo(a)", "foo()"]),
     (rs, "foo($$$A,)", vec!["foo(a, b)", "foo(a, b,)", "foo(a)", "foo()"]),
+    // a candidate tried and rejected after an ellipsis must not leave its bindings behind
+    (js, "f($$$, g($A, 1), $A)", vec!["f(g(y, 1), y)", "f(g(x, 2), g(y, 1), y)", "f(g(x, 1), g(y, 1), y)", "f(0, g(x, 2), g(y, 1), y)", "f(g(x, 2), g(y, 1), x)"]),
+    (js, "[$$$, [$A, 1], $A]", vec!["[[x, 2], [y, 1], y]", "[[y, 1], y]", "[[x, 2], [y, 1], x]"]),
+    (py, "f($$$, g($A, 1), $A)", vec!["f(g(x, 2), g(y, 1), y)", "f(g(y, 1), y)"]),
+    (rs, "f($$$, g($A, 1), $A)", vec!["f(g(x, 2), g(y, 1), y)", "f(g(y, 1), y)"]),
     (js, "[[$$$A], $$$A]", vec!["[[], 1, 2]", "[[1, 2], 1, 2]", "[[1, 2]]", "[[1], 1, 2]", "[[]]"]),
     (py, "pair(f($$$A), g($$$A))", vec!["pair(f(), g(1, 2))", "pair(f(1, 2), g())", "pair(f(1, 2), g(1, 2))", "pair(f(1), g(2))"]),
     (rs, "pair(f($$$A), g($$$A))", vec!["pair(f(), g(1, 2))", "pair(f(1, 2), g())", "pair(f(1, 2), g(1, 2))", "pair(f(), g())"]),
